@@ -38,80 +38,95 @@ Print Assumptions C10_cache_valid.
 (** The digest covers every input: two configurations, from any two moments
     of any histories, in which a file-set rule has the same action digest;
     if executing it succeeded in one, it succeeds in the other with the same
-    list. *)
+    list.  (Since the repair of the action digest - it records listed files
+    that are not source nodes - this needs no assumption about rules named
+    like source files.) *)
 Theorem C10_digest_determines_output :
   forall L rules src L0 rules0 src0,
   wfG L rules src -> wfG L0 rules0 src0 ->
   forall f x d, sdig L rules src f x = Some d ->
   forall f0 x0, sdig L0 rules0 src0 f0 x0 = Some d ->
-  forall n r files sels incs,
+  forall n r files sels igns incs,
     find_node x L = Some n -> ntype n = TRule -> find_rule x rules = Some r ->
-    r_kind r = KFileSet files sels incs ->
+    r_kind r = KFileSet files sels igns incs ->
   forall g0 l0, scont L0 rules0 src0 g0 x0 = Some (inl l0) ->
   exists g, scont L rules src g x = Some (inl l0).
 Proof. exact key_lemma. Qed.
 Print Assumptions C10_digest_determines_output.
 
-(** After any history, a successful build leaves, for every rule reachable
+(** After any history (time may pass, entries may expire), a successful
+    build - with or without AlwaysRebuild - leaves, for every rule reachable
     from the targets, exactly the output a build of the same sources and
     rules from an empty out/ (and empty cache) produces - and that clean
     build succeeds too. *)
-Theorem C10_incremental_eq_clean : forall h rs src ts w1 e1 L,
+Theorem C10_incremental_eq_clean : forall h rs src always always' ts w1 e1 L,
   hist_in_scope h (empty_world rs src) ->
   let w := run h (empty_world rs src) in
-  build_in_scope ts w -> load_world w ts = LOk L -> build ts w = (w1, e1, BOk) ->
-  exists w2 e2, build ts (clean w) = (w2, e2, BOk) /\
-    forall r rl fs ss is',
-      reach_rule L ts r -> find_rule r (w_rules w) = Some rl -> r_kind rl = KFileSet fs ss is' ->
+  build_in_scope ts w -> load_world w ts = LOk L -> build_with always ts w = (w1, e1, BOk) ->
+  exists w2 e2, build_with always' ts (clean w) = (w2, e2, BOk) /\
+    forall r rl fs ss gs is',
+      reach_rule L ts r -> find_rule r (w_rules w) = Some rl -> r_kind rl = KFileSet fs ss gs is' ->
       exists l, content_at (w_out w1) (fileset_out r) = Some (CList l) /\
                 content_at (w_out w2) (fileset_out r) = Some (CList l).
 Proof. exact incremental_eq_clean_hist. Qed.
 Print Assumptions C10_incremental_eq_clean.
 
 (** A build with nothing changed executes no rule and changes nothing. *)
-Theorem C10_noop_rebuild : forall h rs src ts w1 e1,
+Theorem C10_noop_rebuild : forall h rs src always ts w1 e1,
   hist_in_scope h (empty_world rs src) ->
   let w := run h (empty_world rs src) in
-  build_in_scope ts w -> build ts w = (w1, e1, BOk) -> build ts w1 = (w1, [], BOk).
+  build_in_scope ts w -> build_with always ts w = (w1, e1, BOk) -> build ts w1 = (w1, [], BOk).
 Proof. exact noop_rebuild_hist. Qed.
 Print Assumptions C10_noop_rebuild.
 
 (** Exactly the rules whose current action digest has no valid cache entry
-    are executed: a reachable rule runs iff its digest (which covers its own
-    definition and, transitively, the digests of everything it depends on)
-    is not in the cache with outputs still carrying the recorded stamps. *)
-Theorem C10_exec_iff : forall h rs src ts w1 e1 L,
+    are executed (all reachable ones under AlwaysRebuild): a reachable rule
+    runs iff its digest (which covers its own definition and, transitively,
+    the digests of everything it depends on) is not in the cache, unexpired,
+    with outputs still carrying the recorded stamps ([wvalid]). *)
+Theorem C10_exec_iff : forall h rs src always ts w1 e1 L,
   hist_in_scope h (empty_world rs src) ->
   let w := run h (empty_world rs src) in
-  build_in_scope ts w -> load_world w ts = LOk L -> build ts w = (w1, e1, BOk) ->
+  build_in_scope ts w -> load_world w ts = LOk L -> build_with always ts w = (w1, e1, BOk) ->
   forall r,
     In r e1 <->
     reach_rule L ts r /\
-    exists F d, sdig L (w_rules w) (w_src w) F r = Some d /\
-                ~ valid_cached (w_out w) (w_cache w) d.
+    exists F d, sdig L (w_rules w) (w_src w) F r = Some d /\ (~ wvalid w d \/ always = true).
 Proof. exact exec_iff_hist. Qed.
 Print Assumptions C10_exec_iff.
 
 (** ... and after a successful build every reachable rule's digest is
-    validly cached: a rule whose digest is the same at the next build (nothing
-    it depends on changed, outputs intact) is not executed again. *)
-Theorem C10_built_is_cached : forall h rs src ts w1 e1 L,
+    validly cached. *)
+Theorem C10_built_is_cached : forall h rs src always ts w1 e1 L,
   hist_in_scope h (empty_world rs src) ->
   let w := run h (empty_world rs src) in
-  build_in_scope ts w -> load_world w ts = LOk L -> build ts w = (w1, e1, BOk) ->
-  forall r F d, reach_rule L ts r -> sdig L (w_rules w) (w_src w) F r = Some d ->
-    valid_cached (w_out w1) (w_cache w1) d.
+  build_in_scope ts w -> load_world w ts = LOk L -> build_with always ts w = (w1, e1, BOk) ->
+  forall r F d, reach_rule L ts r -> sdig L (w_rules w) (w_src w) F r = Some d -> wvalid w1 d.
 Proof. exact built_is_cached_hist. Qed.
 Print Assumptions C10_built_is_cached.
 
-(** After a successful build and any source / rule edits (outputs left
-    alone), the next successful build does not execute a rule that was
-    reachable before and has the same action digest as before: what a change
-    does not reach is not rebuilt (bundles included). *)
-Theorem C10_unchanged_not_rebuilt : forall h rs src ts w1 e1 L edits ts2 w3 e3 L2,
+(** Cache expiry only ever causes re-execution, never a stale hit: a
+    reachable rule whose entry has expired is executed - and by
+    [C10_incremental_eq_clean], which quantifies over histories in which time
+    passes ([OAdvance]), what the build leaves is still the clean build's
+    output. *)
+Theorem C10_expiry_only_rebuilds : forall h rs src always ts w1 e1 L,
   hist_in_scope h (empty_world rs src) ->
   let w := run h (empty_world rs src) in
-  build_in_scope ts w -> load_world w ts = LOk L -> build ts w = (w1, e1, BOk) ->
+  build_in_scope ts w -> load_world w ts = LOk L -> build_with always ts w = (w1, e1, BOk) ->
+  forall r F d, reach_rule L ts r -> sdig L (w_rules w) (w_src w) F r = Some d ->
+    live (w_now w) (w_times w) d = false -> In r e1.
+Proof. exact expired_is_rebuilt_hist. Qed.
+Print Assumptions C10_expiry_only_rebuilds.
+
+(** After a successful build and any source / rule edits (outputs left
+    alone, no time passing), the next successful build does not execute a
+    rule that was reachable before and has the same action digest as before:
+    what a change does not reach is not rebuilt (bundles included). *)
+Theorem C10_unchanged_not_rebuilt : forall h rs src always ts w1 e1 L edits ts2 w3 e3 L2,
+  hist_in_scope h (empty_world rs src) ->
+  let w := run h (empty_world rs src) in
+  build_in_scope ts w -> load_world w ts = LOk L -> build_with always ts w = (w1, e1, BOk) ->
   forallb is_edit edits = true ->
   let w2 := run edits w1 in
   build_in_scope ts2 w2 -> load_world w2 ts2 = LOk L2 -> build ts2 w2 = (w3, e3, BOk) ->
@@ -126,34 +141,54 @@ Print Assumptions C10_unchanged_not_rebuilt.
     for rules with an output: after a successful build, any source and rule
     edits (outputs left alone) and another successful build, a file set
     reachable in both builds is executed iff its action digest changed - and
-    the digest is the structured value over the rule's own definition and,
-    recursively, the digests of everything it depends on, so it changes
-    exactly when something the rule transitively depends on changed.  (For a
-    bundle, which has no output, an old digest remains valid in the cache, so
-    only the direction [C10_unchanged_not_rebuilt] holds.) *)
-Theorem C10_minimal_rebuild : forall h rs src ts w1 e1 L edits ts2 w3 e3 L2,
+    the digest is the structured value over the rule's own definition
+    (files, selections, ignores, includes) and, recursively, the digests of
+    everything it depends on, so it changes exactly when something the rule
+    transitively depends on changed.  (For a bundle, which has no output, an
+    old digest remains valid in the cache, so only the direction
+    [C10_unchanged_not_rebuilt] holds.) *)
+Theorem C10_minimal_rebuild : forall h rs src always ts w1 e1 L edits ts2 w3 e3 L2,
   hist_in_scope h (empty_world rs src) ->
   let w := run h (empty_world rs src) in
-  build_in_scope ts w -> load_world w ts = LOk L -> build ts w = (w1, e1, BOk) ->
+  build_in_scope ts w -> load_world w ts = LOk L -> build_with always ts w = (w1, e1, BOk) ->
   forallb is_edit edits = true ->
   let w2 := run edits w1 in
   build_in_scope ts2 w2 -> load_world w2 ts2 = LOk L2 -> build ts2 w2 = (w3, e3, BOk) ->
-  forall r rl0 fs0 ss0 is0 rl fs ss is' F d F2 d2,
+  forall r rl0 fs0 ss0 gs0 is0 rl fs ss gs is' F d F2 d2,
     reach_rule L ts r -> reach_rule L2 ts2 r ->
-    find_rule r (w_rules w) = Some rl0 -> r_kind rl0 = KFileSet fs0 ss0 is0 ->
-    find_rule r (w_rules w2) = Some rl -> r_kind rl = KFileSet fs ss is' ->
+    find_rule r (w_rules w) = Some rl0 -> r_kind rl0 = KFileSet fs0 ss0 gs0 is0 ->
+    find_rule r (w_rules w2) = Some rl -> r_kind rl = KFileSet fs ss gs is' ->
     sdig L (w_rules w) (w_src w) F r = Some d ->
     sdig L2 (w_rules w2) (w_src w2) F2 r = Some d2 ->
     (In r e3 <-> d <> d2).
 Proof. exact minimal_rebuild_hist. Qed.
 Print Assumptions C10_minimal_rebuild.
 
-(** A rule whose execution failed is the last one logged, and its action
-    digest has no cache entry afterwards: it cannot be taken as built. *)
-Theorem C10_failed_not_cached : forall h rs src ts w' ex e L,
+(** ... and a changed file set is rebuilt whatever time passed in between
+    and whether or not the second build uses AlwaysRebuild. *)
+Theorem C10_changed_is_rebuilt : forall h rs src always always2 ts w1 e1 L edits ts2 w3 e3 L2,
   hist_in_scope h (empty_world rs src) ->
   let w := run h (empty_world rs src) in
-  build_in_scope ts w -> load_world w ts = LOk L -> build ts w = (w', ex, BFail e) ->
+  build_in_scope ts w -> load_world w ts = LOk L -> build_with always ts w = (w1, e1, BOk) ->
+  forallb is_edit_or_time edits = true ->
+  let w2 := run edits w1 in
+  build_in_scope ts2 w2 -> load_world w2 ts2 = LOk L2 -> build_with always2 ts2 w2 = (w3, e3, BOk) ->
+  forall r rl0 fs0 ss0 gs0 is0 rl fs ss gs is' F d F2 d2,
+    reach_rule L ts r -> reach_rule L2 ts2 r ->
+    find_rule r (w_rules w) = Some rl0 -> r_kind rl0 = KFileSet fs0 ss0 gs0 is0 ->
+    find_rule r (w_rules w2) = Some rl -> r_kind rl = KFileSet fs ss gs is' ->
+    sdig L (w_rules w) (w_src w) F r = Some d ->
+    sdig L2 (w_rules w2) (w_src w2) F2 r = Some d2 ->
+    d <> d2 -> In r e3.
+Proof. exact changed_is_rebuilt_hist. Qed.
+Print Assumptions C10_changed_is_rebuilt.
+
+(** A rule whose execution failed is the last one logged, and its action
+    digest has no cache entry afterwards: it cannot be taken as built. *)
+Theorem C10_failed_not_cached : forall h rs src always ts w' ex e L,
+  hist_in_scope h (empty_world rs src) ->
+  let w := run h (empty_world rs src) in
+  build_in_scope ts w -> load_world w ts = LOk L -> build_with always ts w = (w', ex, BFail e) ->
   exists ex0 x F d,
     ex = (ex0 ++ [x])%list /\ reach_rule L ts x /\
     sdig L (w_rules w) (w_src w) F x = Some d /\ cache_get d (w_cache w') = None.
@@ -161,19 +196,22 @@ Proof. exact failed_not_cached_hist. Qed.
 Print Assumptions C10_failed_not_cached.
 
 (** The model's fuel always suffices. *)
-Theorem C10_build_total : forall ts w, snd (build ts w) <> BOutOfFuel.
+Theorem C10_build_total : forall always ts w, snd (build_with always ts w) <> BOutOfFuel.
 Proof. exact build_total. Qed.
 Print Assumptions C10_build_total.
 
 (** The builder of the current source has the shape the model mirrors:
     skeletons of Build / buildNode / buildNodeDigest / makeDigest / newBuilt /
     checkSameBuilt / newFileStat / sameFileStat / the cache / newFileSet /
-    fileSet.meta / fileSet.build / bundle and the layouts of buildAction,
-    fileStat, built, the cache entry and the rule structs; in buildNode the
-    cache entry is removed before the rule runs and stored only after it and
-    newBuilt succeeded; sameFileStat compares size, mtime, mode, symlink. *)
+    fileSet.meta / fileSet.fileNodes / fileSet.build / bundle and the layouts
+    of buildAction, fileStat, built, the cache entry and the rule structs; in
+    buildNode the cache entry is removed before the rule runs and stored only
+    after it and newBuilt succeeded; sameFileStat compares size, mtime, mode,
+    symlink; a file set's action digest carries fileNodes; the cache reads
+    its clock at get and put and expires entries after the model's 7 days. *)
 Theorem C10_builder_shape_frozen :
   builder_frozenb = true /\ buildnode_order_okb = true /\ samestat_okb = true /\
+  filenodes_okb = true /\ cache_clock_okb = true /\ gen_cache_expire_ns = Build.expire /\
   gen_ruleFileSet = "file_set" /\ gen_ruleBundle = "bundle".
 Proof. exact gen_builder_shape. Qed.
 Print Assumptions C10_builder_shape_frozen.
@@ -182,8 +220,8 @@ Print Assumptions C10_builder_shape_frozen.
 Local Open Scope N_scope.
 
 Definition ex_rules : list rule :=
-  [ mkRule "p0/a" (KFileSet ["p0/x.txt"] [SGlobExt "p0" ".go"] []);
-    mkRule "p1/b" (KFileSet ["p1/y.txt"] [] ["p0/a"]);
+  [ mkRule "p0/a" (KFileSet ["p0/x.txt"] [SGlobExt "p0" ".go"] [IGlobExt "p0" "_test.go"] []);
+    mkRule "p1/b" (KFileSet ["p1/y.txt"] [] [] ["p0/a"]);
     mkRule "p1/all" (KBundle ["p1/b"; "p0/a.fileset"]) ].
 
 Definition ex_src : list (name * stat) :=
@@ -197,9 +235,9 @@ Definition ex_hist : list op :=
     OSetSrc "p0/x.txt" (Some (mkStat 4 1010 420 "")); OBuild ["p1/all"];
     OSetSrc "p0/x.txt" (Some (mkStat 4 1001 420 "")); OBuild ["p1/all"];
     OTamper "p0/a.fileset" (Some (CGarbage 1)); OBuild ["p1/b"];
-    OSetRules [ mkRule "p0/a" (KFileSet ["p0/x.txt"] [SGlobExt "p0" ".go"] []);
+    OSetRules [ mkRule "p0/a" (KFileSet ["p0/x.txt"] [SGlobExt "p0" ".go"] [IGlobExt "p0" "_test.go"] []);
                 mkRule "p1/zz" (KBundle ["p0/a"]);
-                mkRule "p1/b" (KFileSet ["p1/y.txt"] [] ["p0/a"; "p1/zz"]);
+                mkRule "p1/b" (KFileSet ["p1/y.txt"] [] [] ["p0/a"; "p1/zz"]);
                 mkRule "p1/all" (KBundle ["p1/b"; "p0/a.fileset"]) ];
     OBuild ["p1/all"] ].
 
@@ -213,6 +251,10 @@ Fixpoint execs (w : world) (h : list op) : list (list name * bool) :=
   | [] => []
   | OBuild ts :: r =>
       match build ts w with
+      | (w', ex, res) => (ex, match res with BOk => true | _ => false end) :: execs w' r
+      end
+  | OBuildAlways ts :: r =>
+      match build_with true ts w with
       | (w', ex, res) => (ex, match res with BOk => true | _ => false end) :: execs w' r
       end
   | o :: r => execs (step w o) r
@@ -242,3 +284,26 @@ Example C10_nonvacuous_clean :
   snd (snd (fst (build ["p1/all"] w)), snd (fst (build ["p1/all"] (clean w)))) =
   ["p0/a"; "p1/b"; "p1/all"].
 Proof. vm_compute. repeat split. Qed.
+
+(** ignores, output chmod, cache expiry and AlwaysRebuild in one history *)
+Definition ex_hist2 : list op :=
+  [ OBuild ["p1/all"];
+    OSetSrc "p0/m_test.go" (Some (mkStat 5 1020 420 "")); OBuild ["p1/all"];
+    OSetSrc "p0/n.go" (Some (mkStat 5 1021 420 "")); OBuild ["p1/all"];
+    OTouchOut "p0/a.fileset"; OBuild ["p1/all"];
+    OAdvance 604799000000000; OBuild ["p1/all"];
+    OAdvance 1000000000; OBuild ["p1/all"];
+    OBuildAlways ["p1/b"]; OBuild ["p1/all"] ].
+
+Example C10_nonvacuous_history2 :
+  hist_in_scope ex_hist2 (empty_world ex_rules ex_src) /\
+  execs (empty_world ex_rules ex_src) ex_hist2 =
+  [ (["p0/a"; "p1/b"; "p1/all"], true);
+    ([], true);                              (* the new file is ignored: it ends in _test.go *)
+    (["p0/a"; "p1/b"; "p1/all"], true);     (* a selected file appeared *)
+    (["p0/a"], true);                       (* chmod of an output: rebuilt, same content *)
+    ([], true);                              (* one second before the expiry *)
+    (["p0/a"; "p1/b"; "p1/all"], true);     (* every entry expired *)
+    (["p0/a"; "p1/b"], true);               (* AlwaysRebuild of p1/b *)
+    ([], true) ].
+Proof. split; [apply hist_in_scopeb_ok; vm_compute; reflexivity|vm_compute; reflexivity]. Qed.
